@@ -6,12 +6,14 @@ namespace FV.Drv.C17
 open FV FV.C17
 
 /-! The harness's own interpretations (fv/harness/c17_rt.py): P, and W = PrioritizedInterpretation(W1, W2, W3). -/
-def userLeaves : List String := ["P", "W1", "W2", "W3", "Q", "Shift", "Traced", "Other"]
+def userLeaves : List String := ["P", "W1", "W2", "W3", "Q", "Shift", "Traced", "Other", "K"]
 def userChains : List (String × List String) := [("W", ["W1", "W2", "W3"])]
 def userRules : List (String × List String) :=
   [("P", ["a", "bin"]), ("W2", ["b"]), ("W3", ["a", "b"]), ("Q", ["b"]),
    -- a two-level StatefulInterpretation hierarchy: rules_of class = the class's OWN registry
-   ("Shift", ["a"]), ("Traced", ["b"]), ("Other", ["bin"])]
+   ("Shift", ["a"]), ("Traced", ["b"]), ("Other", ["bin"]),
+   -- K: rules for the LEAF classes (Number, Tensor): probes n (Number), t (input-less Tensor), tn (Tensor with inputs)
+   ("K", ["n", "t", "tn"])]
 
 /-- funsor's tables (regenerated from /repo) + the harness's. -/
 def env : Env :=
